@@ -105,6 +105,11 @@ def run(ctx):
         t = rand_tree(rng, maxdepth=rng.choice([0, 1, 2, 3]))
         impl.reset()
         root = build_shared(t, rng)
+        if rng.random() < 0.15:
+            # stale or missing back links (children assigned through the setter, a node added to two parents)
+            for nd in list(walk(root)):
+                if nd.parent is not None and rng.random() < 0.4:
+                    nd.parent = rng.choice([None, root])
         tagmap = {}
         before = otree(root, tagmap)
         shared = len({id(n.nsmap) for n in walk(root)}) < sum(1 for _ in walk(root))
